@@ -113,3 +113,35 @@ package validate
 //@   results out
 //@   ensures capOK(out)
 //@   ensures forall k capability :: capIn(out, k) == (k == c || capIn(cs, k))
+
+// Attribute capabilities and tag capabilities live in one set. A `has` guard must only ever
+// establish an *attribute* capability and a `hasTag` guard only a *tag* capability: otherwise a
+// guard on an attribute licenses a getTag (or the other way round) that the guard never tested
+// (C15: an accepted tag access cannot fail with a missing tag).
+//@ spec func isTagCap(c capability) bool = c.tag
+//@ func (Validator) typeOfHas
+//@   props C15
+//@   requires capOK(caps)
+//@   results t, newCaps, err
+//@   ensures attr_namespace: err == nil ==> (forall c capability :: (capIn(newCaps, c) && !capIn(caps, c)) ==> !isTagCap(c))
+//@ func (Validator) typeOfHasTag
+//@   props C15
+//@   requires capOK(caps)
+//@   results t, newCaps, err
+//@   ensures tag_namespace: err == nil ==> (forall c capability :: (capIn(newCaps, c) && !capIn(caps, c)) ==> isTagCap(c))
+
+// A capability is keyed by the *name* of the expression the guard tested: the access path spelled
+// with "." between the steps. Two different access paths must never get the same name, or a guard
+// on one licenses an access through the other (C15: an accepted attribute access cannot fail with
+// a missing attribute). One step is unambiguous when the attribute names contain no "."
+// (assumed fact about strings: split_unique); exprVarName gives no name to the other accesses.
+//@ axiom split_unique: forall p1 string, v1 string, p2 string, v2 string :: { p1 + "." + v1, p2 + "." + v2 } (!hasSub(v1, ".") && !hasSub(v2, ".") && p1 + "." + v1 == p2 + "." + v2) ==> (p1 == p2 && v1 == v2)
+//@ func exprVarName
+//@   props C15
+//@   pure
+//@   results r
+//@   ensures variable: (n is ast.NodeTypeVariable) ==> r == n.(ast.NodeTypeVariable).Name
+//@   ensures access: ((n is ast.NodeTypeAccess) && r != types.String("")) ==> (exprVarName#0(n.(ast.NodeTypeAccess).Arg) != types.String("") && r == types.String(string(exprVarName#0(n.(ast.NodeTypeAccess).Arg)) + "." + string(n.(ast.NodeTypeAccess).Value)))
+//@   ensures access_step: ((n is ast.NodeTypeAccess) && r != types.String("")) ==> !hasSub(string(n.(ast.NodeTypeAccess).Value), ".")
+//@   ensures other: (!(n is ast.NodeTypeVariable) && !(n is ast.NodeTypeAccess)) ==> r == types.String("")
+//@ lemma C15 capability_names_unambiguous: forall a1 ast.NodeTypeAccess, a2 ast.NodeTypeAccess :: (exprVarName#0(ast.IsNode(a1)) != types.String("") && exprVarName#0(ast.IsNode(a1)) == exprVarName#0(ast.IsNode(a2))) ==> (a1.Value == a2.Value && exprVarName#0(a1.Arg) == exprVarName#0(a2.Arg))
